@@ -44,7 +44,16 @@ def analyse(prop: str, repo: Repo) -> Collector:
         raise AnalysisError(f"no rule set for {prop}")
     col = Collector(prop)
     ctx = Context(repo)
-    mod.run(ctx, col)
+    try:
+        mod.run(ctx, col)
+    except AnalysisError as e:
+        # the analysis could not be completed; rule instances decided before that point stand.
+        # A violation among them is still a violation; otherwise the run is an ANALYSIS-ERROR.
+        if not col.failures():
+            raise
+        col.notes.append(f"analysis incomplete: {e}")
+        col.incomplete = str(e)
+        return col
     for rule, n in col.floors.items():
         have = col.count(rule)
         if have < n:
@@ -112,7 +121,12 @@ def run_check(prop: str, tier: str, repo_root=None, explain=None, quiet=False) -
             per[i.rule][1] += int(i.ok)
         print(f"[{prop}] {tier}: {len(col.instances)} rule instances over {repo.root} "
               f"(digest {repo.digest()}); " + ", ".join(f"{r} {v[1]}/{v[0]}" for r, v in sorted(per.items())))
+    if getattr(col, "incomplete", None) and not new_fails:
+        print(f"ANALYSIS-ERROR property={prop} {col.incomplete}")
+        return 2
     if new_fails:
+        if getattr(col, "incomplete", None):
+            print(f"note: analysis incomplete after these reports ({col.incomplete})")
         for f in new_fails:
             print(f"{f.where()}  {f.rule}  {f.construct}  {f.detail}")
         vf = write_violation_file(prop, new_fails)
